@@ -20,13 +20,18 @@ func vhProfilePlaceholder() {
 	certHasIt := vChoose("certHasIt", 2) == 1
 	crit := vBool("critical")
 
-	pexts, err := parseExtensions([]AnyExtension{vRawExt(kind, "", false)})
-	vAssert(err == nil, "parseExtensions rejected a content-less profile extension")
-	if err != nil {
+	// the profile goes through the real v1 conversion (initProfile), so that
+	// the optional/override flags of the YAML entry are covered too
+	pe := vRawExt(kind, "", false)
+	pe.Optional, pe.Override = optional, override
+	profp, err := initProfile(Profile{ProfileName: "p", Version: 1, Extensions: []AnyExtension{pe}})
+	vAssert(err == nil && profp != nil, "initProfile rejected a content-less profile extension")
+	if err != nil || profp == nil {
 		return
 	}
-	prof := config.CertificateProfile{Name: "p", Extensions: []config.ProfileExtension{{ExtensionConfig: pexts[0],
-		ExtensionProfile: config.ExtensionProfile{Optional: optional, Override: override}}}}
+	prof := *profp
+	vAssert(len(prof.Extensions) == 1 && prof.Extensions[0].Optional == optional && prof.Extensions[0].Override == override,
+		"the optional/override flags of a profile extension changed in the conversion")
 	cfg := CertConfig{Subject: "CN=x", SerialNumber: 4711}
 	if certHasIt {
 		cfg.Extensions = []AnyExtension{vRawExt(kind, nullPrefix, crit)}
